@@ -180,6 +180,9 @@ def main():
         print("ERROR machinery failure for %s: %s" % (prop, e))
         return 2
 
+    if "-v" in args:
+        for key, ok, text, where in R.instances:
+            print("%s %s: %s %s" % ("ok " if ok else "BAD", key, text, where[:2]))
     known = load_known()
     findings = {}
     for key, ok, text, where in R.instances:
